@@ -708,7 +708,9 @@ class Delayed(DaskMethodsMixin, OperatorMethodMixin):
         return (self._layer,)
 
     def __dask_tokenize__(self):
-        return self.key
+        # Not the bare key: a Delayed must not tokenize like the string (or tuple)
+        # that happens to be its key, or pure calls on either would share a key.
+        return Delayed, self.key
 
     __dask_scheduler__ = staticmethod(DEFAULT_GET)
     __dask_optimize__ = globalmethod(optimize, key="delayed_optimize")
